@@ -372,22 +372,31 @@ def handle (line : String) : String := Id.run do
     match c.bcs P 0, arr 24, c.termList P 25 64 with
     | some bc, some xs, some ts =>
       let x := c.cellFld xs
+      let scOf (cc : Idx) : Q :=
+        if M.outCount cc = 0 then
+          let s := sumRow ts cc
+          |s.p * x cc| + |s.xm * x (cc.prev .x)| + |s.xp * x (cc.next .x)|
+          + |s.ym * x (cc.prev .y)| + |s.yp * x (cc.next .y)|
+          + |s.zm * x (cc.prev .z)| + |s.zp * x (cc.next .z)| + |sumRhs ts cc|
+        else
+          let row := bcRow M bc cc
+          row.entries.foldl (fun acc e => acc + |e.2 * x e.1|) |row.rhs|
+      let mut gs : Q := 0
+      for cc in c.gcells do
+        let v := scOf cc
+        if v > gs then gs := v
       let mut worst : Q := 0
+      let mut worstAt : ℕ := 0
       for cc in c.gcells do
         let r := assembleOp M bc ts x cc - assembleRhs M bc ts cc
-        -- scale: sum |a_ij x_j| + |b_i|
-        let sc : Q :=
-          if M.outCount cc = 0 then
-            let s := sumRow ts cc
-            |s.p * x cc| + |s.xm * x (cc.prev .x)| + |s.xp * x (cc.next .x)|
-            + |s.ym * x (cc.prev .y)| + |s.yp * x (cc.next .y)|
-            + |s.zm * x (cc.prev .z)| + |s.zp * x (cc.next .z)| + |sumRhs ts cc|
-          else
-            let row := bcRow M bc cc
-            row.entries.foldl (fun acc e => acc + |e.2 * x e.1|) |row.rhs|
+        -- scale: sum |a_ij x_j| + |b_i|, floored at 1e-6 of the largest row scale of the system
+        let sc0 := scOf cc
+        let sc := if sc0 > gs / 1000000 then sc0 else gs / 1000000
         let rel := if sc = 0 then |r| else |r| / sc
-        if rel > worst then worst := rel
-      return fmtQ worst
+        if rel > worst then
+          worst := rel
+          worstAt := c.gflat cc
+      return fmtQ worst ++ " " ++ toString worstAt
     | _, _, _ => return "bad-op"
   | _ => return "bad-op"
 
